@@ -403,9 +403,10 @@ fn pool() -> Vec<PoolRow> {
 
 /// (4c) a line that is not valid UTF-8 (a Latin-1 description) as header and as a data row: it is
 /// delivered as an error item and must not disturb order, header skipping or line numbers
-/// (4d) the source is not a finished regular file: it is empty when the parser is constructed
-/// and written afterwards, or it is a named pipe. The rows delivered must be the rows of the
-/// text, as for a file that was complete from the start.
+/// (4d) the source is not a regular file but a named pipe (reported size 0, data arrives while
+/// reading). The rows delivered must be the rows of the text, as for a regular file. (A file
+/// that is still empty when the parser is constructed is NOT used: an implementation may
+/// legitimately read its input when it is opened.)
 pub fn check_growing_sources(st: &mut Stats) {
     let scratch = Scratch::new();
     let texts = [
@@ -427,26 +428,11 @@ pub fn check_growing_sources(st: &mut Stats) {
             Ok(Ok(v)) => v,
             _ => continue,
         };
-        // (i) empty at construction, written before the first row is asked for
-        st.states += 1;
-        st.transitions += 1;
-        st.evaluations += 1;
-        let late = scratch.dir.join(format!("late{}.csv", k));
-        let _ = std::fs::write(&late, "");
-        let got = guard(|| -> Result<Vec<String>, String> {
-            let parser: CsvLineParser<std::fs::File, PrecisDerivedProperty> = CsvLineParser::from_path(&late).map_err(|e| e.mesg().to_string())?;
-            std::fs::write(&late, text).map_err(|e| e.to_string())?;
-            Ok(parser.map(|r| match r { Ok(v) => format!("Ok({:?})", render(&v)), Err(e) => format!("Err(line {:?})", e.line()) }).collect())
-        });
         let mk = |how: &str| {
             let (h, t) = (how.to_string(), text.to_string());
             move || Case::new("growing_source").n(k as u64).x(json!({"how": h, "text": t}))
         };
-        match got {
-            Ok(Ok(v)) if v == expected => {}
-            other => st.violation("file_source", mk("file empty when the parser was constructed, written before the first next()"), format!("{:?}", expected), format!("{:?}", other)),
-        }
-        // (ii) a named pipe
+        // a named pipe: its size is 0 when it is opened, the rows arrive while it is read
         let fifo = scratch.dir.join(format!("pipe{}", k));
         let made = std::process::Command::new("mkfifo").arg(&fifo).status().map(|s| s.success()).unwrap_or(false);
         if !made {
@@ -751,7 +737,7 @@ pub fn run(_env: &Env, run: &Run) -> (Stats, Coverage) {
     st.sample(json!({"row": "0041,PVALID or,desc", "expected": "Err"}));
     st.sample(json!({"file": "header, good, bad(above U+10FFFF), good (CRLF, no final newline)", "expected": "Ok, Err with line()=3, Ok - in file order"}));
     let cov = Coverage {
-        rule: format!("grammar enumeration: (1) every code point 0..=0x10FFFF as a single-code-point row in 4/5/6-digit upper-case hex, property field and description rotating over all {} property fields (7 names + 49 ordered pairs x 3 spacings) and {} descriptions (empty, commas, ' or ', trailing CR); (2) every range start<=end over {} boundary values x every property field x every description; (3) {} hand-listed malformed rows + systematic deletion/corruption of each field of boundary rows; (4) every file of <= {} rows over a pool of {} rows (6 well-formed, rest malformed) x LF/CRLF x with/without final newline through CsvLineParser::from_path: items in file order, error line() = 1-based line; (4b) descriptions of 255..70000 bytes and around 2^20, 2^21 (thorough: 2^24) bytes as single rows and inside 4-row files; (4c) files whose header or one data row is not valid UTF-8; (4d) a file that is empty when the parser is constructed and written afterwards, and a named pipe; (5) the real IANA file row by row; expected values are known by construction; non-trivial = range rows, malformed rows, multi-row files", props.len(), DESCS.len(), b.len(), malformed_rows().len(), maxrows, pool.len()),
+        rule: format!("grammar enumeration: (1) every code point 0..=0x10FFFF as a single-code-point row in 4/5/6-digit upper-case hex, property field and description rotating over all {} property fields (7 names + 49 ordered pairs x 3 spacings) and {} descriptions (empty, commas, ' or ', trailing CR); (2) every range start<=end over {} boundary values x every property field x every description; (3) {} hand-listed malformed rows + systematic deletion/corruption of each field of boundary rows; (4) every file of <= {} rows over a pool of {} rows (6 well-formed, rest malformed) x LF/CRLF x with/without final newline through CsvLineParser::from_path: items in file order, error line() = 1-based line; (4b) descriptions of 255..70000 bytes and around 2^20, 2^21 (thorough: 2^24) bytes as single rows and inside 4-row files; (4c) files whose header or one data row is not valid UTF-8; (4d) the same text through a named pipe; (5) the real IANA file row by row; expected values are known by construction; non-trivial = range rows, malformed rows, multi-row files", props.len(), DESCS.len(), b.len(), malformed_rows().len(), maxrows, pool.len()),
         alphabet: json!({"names": NAMES, "descriptions": DESCS, "boundary": b.iter().map(|v| format!("{:04X}", v)).collect::<Vec<_>>()}),
         bound_completed: format!("1,114,112 code points x up to 3 spellings; {} ranges x {} x {}; {} files x 4 layouts", ranges.len(), props.len(), DESCS.len(), nfiles),
         exhaustive: false,
